@@ -171,7 +171,7 @@ func genHistoryReq(r *gen.Rand, tag string, custom bool) wreq {
 	case 1:
 		kind = "locals"
 		q.Method = gen.Pick(r, []string{"GET", "POST", "PUT", "DELETE"})
-		q.Target = "/locals/" + tag + "?do=" + gen.Pick(r, []string{"", "", "render", "next", "err"})
+		q.Target = "/locals/" + tag + "?do=" + gen.Pick(r, []string{"", "", "render", "next", "err", "rendernil", "renderfail", "renderfail"})
 	case 2:
 		kind = "redirect-with"
 		q.Method = gen.Pick(r, []string{"GET", "POST"})
@@ -1385,6 +1385,44 @@ func runIsolation(e *ev.Env) {
 			ic.Intruders = append(ic.Intruders, wreq{Kind: "echo", Raw: mk("i"+strconv.Itoa(len(ic.Intruders))+"x", false), Cookie: ckNone, EndConn: r.Bool()})
 		}
 		ic.Probe = probeSpec{Route: -1, Class: ckNone, Variant: "echo", Raw: mk("PRB", true)}
+		judgeIso(e, c, ic)
+	})
+	// directed family: history and probe are both unrouted, on the SAME path, with different methods
+	e.Cases("samepath", e.N(300, 8000), func(c *ev.Case) {
+		r := c.R
+		ic := isoCase{Cfg: isoCfg{Custom: r.Chance(1, 3), PassLocals: r.Bool(), Immutable: r.Chance(1, 4)}}
+		ic.Cfg.widen(r)
+		ic.Cfg.NoMW = r.Chance(3, 4)
+		path := gen.Pick(r, []string{"/missing", "/missing/" + r.StringFrom(pathAlpha, r.Range(1, 10)), "/getonly", "/base", "/admin/nothing", "/err/400"})
+		methods := []string{"GET", "POST", "PUT", "DELETE", "PATCH", "HEAD", "OPTIONS"}
+		if path == "/getonly" || path == "/base" || path == "/err/400" {
+			methods = []string{"POST", "PUT", "DELETE", "PATCH"} // GET is routed there
+		}
+		gen.Shuffle(r, methods)
+		mk := func(m, tag string) []byte {
+			q := &reqSpec{Host: gen.Pick(r, hosts), Method: m, Target: path + "?name=" + tag}
+			if m == "POST" || m == "PUT" || m == "PATCH" {
+				q.Body = []byte{}
+			}
+			decorate(r.Split(), q)
+			return q.raw()
+		}
+		for i := r.Intn(2); i > 0; i-- {
+			ic.History = append(ic.History, genHistoryReq(r.Split(), "h"+strconv.Itoa(len(ic.History))+"x", ic.Cfg.Custom))
+		}
+		n := r.Range(1, 2)
+		for i := 0; i < n; i++ {
+			m := methods[i]
+			if m == "HEAD" {
+				m = "DELETE"
+			}
+			ic.History = append(ic.History, wreq{Kind: "unrouted-" + m, Raw: mk(m, "h"+strconv.Itoa(len(ic.History))+"x"), Cookie: ckNone})
+		}
+		pm := methods[n]
+		if pm == "HEAD" {
+			pm = "OPTIONS"
+		}
+		ic.Probe = probeSpec{Route: -1, Class: ckNone, ViaEH: true, Variant: "eh-samepath", Raw: mk(pm, "PRB")}
 		judgeIso(e, c, ic)
 	})
 	if e.Only == "" {
